@@ -99,6 +99,19 @@ JOBS += [
          unwindset=['carquet_sse_match_copy.%d:%d' % lb for lb in enumerate([5, 9, 5, 17, 26, 5, 5, 5, 50])] + ['memcpy.0:17'],
          functions=['carquet_sse_match_copy'], level='bounded', bound='offset 1..32, len 0..48, all buffer contents', wip=True, timeout=600),
 ]
+# unbounded contracts for these three are in the overlay (jobs c15_sse_match_length/memset_small/memcpy_small: cbmc does not
+# finish in 300 s / 8 GB); decided bounded instead
+JOBS += [ej('match_length', loops=2, note='UNDECIDED unbounded: timeout'), ej('memset_small', loops=3, note='UNDECIDED unbounded: timeout'),
+         ej('memcpy_small', loops=3, note='UNDECIDED unbounded: timeout')]
+def bj(fn, unw, bound):
+    return dict(name='c15_sse_%s_bounded' % fn, entry='h_sse_%s_bounded' % fn, prop='C15', harness='harness/C15/sse.c', overlays=[],
+                loop_contracts=False, defines=E['defines'], extra_sources=E['extra_sources'], trusted=E['trusted'],
+                unwindset=['carquet_sse_%s.%d:%d' % (fn, i, b) for i, b in enumerate(unw)] + ['__builtin_ia32_pmovmskb128.0:17'],
+                functions=['carquet_sse_' + fn], level='bounded', bound=bound, wip=True, timeout=600)
+JOBS += [bj('memset_small', [4, 5, 17], 'n 0..130, any alignment offset fixed at 16, all values'),
+         bj('memcpy_small', [4, 5, 17], 'n 0..130, all contents'),
+         bj('match_length', [5, 17], 'limit - p <= 48, buffer <= 64 bytes, match before p in the same buffer (LZ), all contents')]
+JOBS[-1]['backend'] = ['cadical', 'sat']
 def lemma(fn, **kw):
     d = dict(name='c15_sse_' + fn, entry='h_sse_' + fn, loop_contracts=False, unwind=66, functions=['carquet_sse_' + fn], wip=True)
     d.update(E); d['overlays'] = []; d.update(kw)
@@ -111,7 +124,7 @@ JOBS += [
 # ---- status after validation (ok on /repo AND a deliberate breakage of the function detected) -----
 VALIDATED = set("""
 c15_dispatch_isa_subset c15_scalar_prefix_sum_i32 c15_scalar_prefix_sum_i64 c15_scalar_unpack_bools c15_scalar_build_null_bitmap
-c15_sse_crc32c_check_value c15_sse_unpack_bools
+c15_sse_crc32c_check_value c15_sse_unpack_bools c15_sse_crc32c c15_scalar_match_copy_bounded c15_sse_match_copy_bounded
 c15_scalar_gather_i32 c15_scalar_gather_i64 c15_scalar_gather_float
 c15_scalar_gather_double c15_scalar_byte_split_encode_float c15_scalar_byte_split_decode_float
 c15_scalar_byte_split_encode_double c15_scalar_byte_split_decode_double
@@ -121,7 +134,7 @@ c15_sse_fill_def_levels c15_sse_prefix_sum_i32 c15_sse_prefix_sum_i64 c15_sse_ga
 c15_sse_bitunpack8_4bit c15_sse_bitunpack8_8bit c15_sse_pack_bools_01
 c15_sse_find_run_length_i32 c15_sse_count_non_nulls c15_sse_build_null_bitmap
 """.split())
-THOROUGH = {'c15_scalar_byte_split_encode_double': 220, 'c15_scalar_byte_split_decode_double': 60,
+THOROUGH = {'c15_sse_crc32c': 100, 'c15_scalar_match_copy_bounded': 105, 'c15_sse_match_copy_bounded': 115, 'c15_scalar_byte_split_encode_double': 220, 'c15_scalar_byte_split_decode_double': 60,
             'c15_sse_gather_i32': 300, 'c15_sse_prefix_sum_i32': 95, 'c15_sse_prefix_sum_i64': 90}
 NOTES = {}
 for j in JOBS:
